@@ -1,21 +1,178 @@
 package main
 
 import (
+	"flag"
 	"fmt"
-	"golang.org/x/tools/go/packages"
-	"golang.org/x/tools/go/ssa"
-	"golang.org/x/tools/go/ssa/ssautil"
+	"os"
+	"strings"
+	"time"
 )
 
 func main() {
-	cfg := &packages.Config{Mode: packages.LoadAllSyntax, Dir: "/repo", BuildFlags: []string{"-tags=verif"}}
-	pkgs, err := packages.Load(cfg, ".", "./terminfo", "./views")
-	if err != nil {
-		panic(err)
+	defer cleanupScratch()
+	if len(os.Args) < 2 {
+		fmt.Println("usage: govc verify [-trace] <pkg.key>... | govc check <Cxx> quick|thorough | govc loops <key>")
+		os.Exit(2)
 	}
-	prog, spkgs := ssautil.AllPackages(pkgs, ssa.GlobalDebug)
-	prog.Build()
-	for _, p := range spkgs {
-		fmt.Println(p.Pkg.Path(), len(p.Members))
+	switch os.Args[1] {
+	case "verify":
+		os.Exit(cmdVerify(os.Args[2:]))
+	case "check":
+		os.Exit(cmdCheck(os.Args[2:]))
+	case "loops":
+		os.Exit(cmdLoops(os.Args[2:]))
+	case "replay":
+		os.Exit(cmdReplay(os.Args[2:]))
+	default:
+		fmt.Println("unknown command", os.Args[1])
+		os.Exit(2)
 	}
 }
+
+const modPath = "github.com/gdamore/tcell/v2"
+
+func expandKey(k string) string {
+	switch {
+	case strings.HasPrefix(k, "tcell."):
+		return modPath + "." + k[6:]
+	case strings.HasPrefix(k, "terminfo."):
+		return modPath + "/terminfo." + k[9:]
+	case strings.HasPrefix(k, "views."):
+		return modPath + "/views." + k[6:]
+	}
+	return k
+}
+
+func cmdLoops(args []string) int {
+	e, err := LoadEngine([]string{".", "./terminfo", "./views"}, nil)
+	if err != nil {
+		fmt.Println(err)
+		return 3
+	}
+	for _, a := range args {
+		fn := e.FindFunc(expandKey(a))
+		if fn == nil {
+			fmt.Println("not found:", a)
+			continue
+		}
+		for _, l := range e.LoopsOf(fn).Loops {
+			fmt.Printf("%s loop %s header=b%d pos=%s blocks=%d\n", a, l.ID, l.Header.Index, e.posStr(l.Pos), len(l.Blocks))
+		}
+	}
+	return 0
+}
+
+func cmdVerify(args []string) int {
+	fs := flag.NewFlagSet("verify", flag.ExitOnError)
+	trace := fs.Bool("trace", false, "trace instructions")
+	to := fs.Int("timeout", 10, "solver timeout seconds")
+	dump := fs.String("dump", "", "dump SMT of obligation whose name contains this")
+	lem := fs.Bool("lemmas", false, "verify all lemmas too")
+	fs.Parse(args)
+	e, err := LoadEngine([]string{".", "./terminfo", "./views"}, nil)
+	if err != nil {
+		fmt.Println("load error:", err)
+		return 3
+	}
+	if len(e.Errors) > 0 {
+		fmt.Println("package errors:", e.Errors)
+	}
+	traceFlag = *trace
+	rc := 0
+	var all []*ObGroup
+	for _, a := range fs.Args() {
+		key := expandKey(a)
+		t0 := time.Now()
+		r := e.VerifyFunc(key)
+		if r.Err != "" {
+			fmt.Printf("%s: ERROR %s\n", a, r.Err)
+			rc = 3
+			continue
+		}
+		gs := groupObligations(r.Obs)
+		discharge(gs, DischargeOpts{Timeout: time.Duration(*to) * time.Second, Par: 12, ModelTerms: defaultModelTerms})
+		fmt.Printf("%s: %d obligation groups (%d instances), %d paths, %.1fs; loops %v\n", a, len(gs), len(r.Obs), r.Paths, time.Since(t0).Seconds(), r.Loops)
+		for _, g := range gs {
+			mark := "ok "
+			if g.Status == "failed" || g.Status == "unknown" || g.Status == "vacuous" {
+				mark = "!! "
+				rc = 1
+			}
+			fmt.Printf("  %s%-9s %-70s x%d %s %.2fs %s\n", mark, g.Status, g.Name, len(g.Instances), g.Solver, g.Secs, g.Src)
+			if g.Status == "failed" {
+				for _, k := range sortedKeys(g.Model) {
+					fmt.Printf("        %s = %s\n", k, g.Model[k])
+				}
+			}
+			if *dump != "" && strings.Contains(g.Name, *dump) {
+				fmt.Println(Script([]*Term{g.query()}, nil, "", TS.Defs))
+			}
+		}
+		for _, as := range r.Assumed {
+			fmt.Println("  assumed:", as)
+		}
+		for _, as := range r.Inlined {
+			fmt.Println("  inlined:", as)
+		}
+		all = append(all, gs...)
+	}
+	if *lem {
+		for _, l := range e.Specs.Lemmas {
+			r := e.VerifyLemma(l)
+			if r.Err != "" {
+				fmt.Printf("lemma %s: ERROR %s\n", l.Name, r.Err)
+				rc = 3
+				continue
+			}
+			gs := groupObligations(r.Obs)
+			discharge(gs, DischargeOpts{Timeout: time.Duration(*to) * time.Second, Par: 12})
+			for _, g := range gs {
+				mark := "ok "
+				if g.Status == "failed" || g.Status == "unknown" || g.Status == "vacuous" {
+					mark = "!! "
+					rc = 1
+				}
+				fmt.Printf("  %s%-9s %-70s %s %.2fs %s\n", mark, g.Status, g.Name, g.Solver, g.Secs, g.Src)
+				if *dump != "" && strings.Contains(g.Name, *dump) {
+					fmt.Println(Script([]*Term{g.query()}, nil, "", TS.Defs))
+				}
+			}
+		}
+	}
+	return rc
+}
+
+var traceFlag bool
+
+// defaultModelTerms: all free scalar variables of the query.
+func defaultModelTerms(g *ObGroup) []*Term {
+	vars := map[string]*Sort{}
+	ufs := map[string]bool{}
+	seen := map[int]bool{}
+	collectDecls(g.query(), vars, ufs, seen)
+	var out []*Term
+	var names []string
+	for n := range vars {
+		names = append(names, n)
+	}
+	sortStrings(names)
+	for _, n := range names {
+		s := vars[n]
+		if s.Kind == SArray {
+			continue
+		}
+		out = append(out, Var(n, s))
+	}
+	return out
+}
+
+func sortStrings(s []string) {
+	for i := 1; i < len(s); i++ {
+		for j := i; j > 0 && s[j] < s[j-1]; j-- {
+			s[j], s[j-1] = s[j-1], s[j]
+		}
+	}
+}
+
+func cmdCheck(args []string) int  { fmt.Println("not yet"); return 3 }
+func cmdReplay(args []string) int { fmt.Println("not yet"); return 3 }
